@@ -87,7 +87,7 @@ def gen_g(r, name):
     t = wchoice(r, [("mix", 5), ("loop_sum", 1), ("bool_list", 1.2), ("lookup", 1), ("tuple", 1), ("const_index", 0.5), ("range", 0.4), ("with_def", 1.5), ("ifstmt", 1), ("list_tuples", 0.5),
                     ("builtins", 1.5), ("two_lists", 0.8), ("inner_def", 1.2), ("minmax", 0.6),
                     ("unpack", 0.8), ("enum_loop", 0.8), ("forward", 0.8), ("double_index", 0.6), ("augassign", 0.6), ("multi_assign", 1.0),
-                    ("reassign", 0.8), ("iterate_twice", 0.8), ("branch_const", 0.8), ("prefix_names", 0.6)])
+                    ("reassign", 0.8), ("iterate_twice", 0.8), ("branch_const", 0.8), ("prefix_names", 0.6), ("sum_builtin", 1.2)])
     defs = []
     if t == "mix":
         # 1-4 parameters interleaved anywhere in the signature with 1-3 real arguments
@@ -193,6 +193,23 @@ def gen_g(r, name):
     elif t == "prefix_names":
         params, args, ret = [("p", "bool"), ("p1", "bool"), ("p10", "Qint[2]")], [("a", "bool"), ("x", "Qint[2]")], "bool"
         src = f"def {name}(p1: Parameter[bool], a: bool, p: Parameter[bool], x: Qint[2], p10: Parameter[Qint[2]]) -> bool:\n    return ((p and a) ^ p1) or (x == p10)\n"
+    elif t == "sum_builtin":
+        # sum / len / min / max of a Qint list parameter together with other uses of the same parameter
+        # every value has the width of the result, so that wrapping at each addition equals cropping once
+        # at the end (plain Python's value is the meaning only where no NARROWER intermediate overflows)
+        n = r.randint(2, 3)
+        params, args, ret = [("p", f"Qlist[Qint[4], {n}]")], [("x", "Qint[4]")], "Qint[4]"
+        i = r.randrange(n)
+        form = r.randrange(5)
+        body = [f"    return sum(p) + p[{i}] + x\n",
+                f"    s = sum(p)\n    for v in p:\n        s = s + v\n    return s + x\n",
+                f"    return (sum(p) + len(p)) ^ x\n",
+                f"    return p[{i}] + sum(p) + x\n",
+                f"    return sum(p) + sum(p) + x\n"][form]
+        sig = [f"p: Parameter[Qlist[Qint[4], {n}]]", "x: Qint[4]"]
+        if r.random() < 0.5:
+            sig.reverse()
+        src = f"def {name}({', '.join(sig)}) -> Qint[4]:\n{body}"
     elif t == "unpack":
         params, args, ret = [("p", "Tuple[bool, bool]")], [("a", "bool")], "bool"
         src = f"def {name}(p: Parameter[Tuple[bool, bool]], a: bool) -> bool:\n    x, y = p\n    return (x and a) ^ y\n"
@@ -384,6 +401,8 @@ def injected_typed(src, values, params):
                 return None
             val = ast.Call(func=ast.Name(id=f"Qint{w}", ctx=ast.Load()), args=[ast.Constant(value=v)], keywords=[])
         else:
+            if "Qint" in ptypes.get(a.arg, ""):
+                return None  # Qint leaves inside a list / tuple cannot be written as typed constants here
             val = literal(v)
         pre.append(ast.Assign(targets=[ast.Name(id=a.arg, ctx=ast.Store())], value=val))
     fd.args.args = [a for a in fd.args.args if a.arg not in values]
